@@ -219,6 +219,8 @@ func (x *Exec) verify(fn *ssa.Function, ct *Contract, rep *FuncReport) {
 	// symbolic parameters and free variables
 	for _, pv := range fn.Params {
 		v := x.symbolic(st, pv.Type(), pv.Name(), true)
+		// a function-typed parameter can be given a contract: field:<function key>#<parameter>
+		x.tagOrigin(v, pv.Type(), funcKey(fn)+"#"+pv.Name())
 		fr.env[pv] = v
 	}
 	for _, fvv := range fn.FreeVars {
